@@ -42,8 +42,8 @@ CHECKS = {
             "Trusted: catch_unwind sees every panic (panic=unwind build, overflow checks on). The value pool is a class alphabet, not all strings.",
             "DESIGN.md section 4 C12"),
     "C19": ("enum", "model_checking",
-            "explicit exploration of every operation sequence (get/take_binary) up to depth 4/5 on every frame of a bounded family built by the real parser, all observers, all next/next_back iteration patterns and the positional/consuming iterator adaptors compared with a Vec-based model after every step (no state merging)",
-            "242 frames (all key sequences of length 0..4 over {a, A, b}, with/without binary) x every sequence of <=4/5 operations from {get(a), get(A), get(b), get(missing), take_binary}; after every step find/fields_len/is_empty/has_binary/binary/clone and fields(), &frame, into_iter() under every front/back pattern incl. IntoIter::take_binary, and nth/nth_back/last/count/size_hint/skip/step_by/rev called on the iterator types themselves; responses with 0..3 frames +- error under every front/back pattern with exact size hints, successful_frames, is_error, into_single_frame.",
+            "explicit exploration of every operation sequence (get/take_binary) up to depth 5/6 on every frame of a bounded family built by the real parser, all observers, all next/next_back iteration patterns and the positional/consuming iterator adaptors compared with a Vec-based model after every step (no state merging)",
+            "242 frames (all key sequences of length 0..4 over {a, A, b}, with/without binary) x every sequence of <=5/6 operations from {get(a), get(A), get(b), get(missing), take_binary}; after every step find/fields_len/is_empty/has_binary/binary/clone and fields(), &frame, into_iter() under every front/back pattern incl. IntoIter::take_binary, and nth/nth_back/last/count/size_hint/skip/step_by/rev called on the iterator types themselves; responses with 0..3 frames +- error under every front/back pattern with exact size hints, successful_frames, is_error, into_single_frame.",
             "Trusted: the Vec<Option<(key,value)>> + Option<binary> model.",
             "DESIGN.md sections 3.3, 4 C19"),
     "C20": ("enum", "model_checking",
@@ -52,13 +52,13 @@ CHECKS = {
             "Trusted: the two name tables written from the MPD protocol reference.",
             "DESIGN.md section 4 C20"),
     "C07": ("enum", "model_checking",
-            "bounded-exhaustive enumeration of command names, argument values of every Argument kind (incl. user-defined renderers) and all sequences of <=4/5 accepted/rejected add_argument calls; differential oracle (command == command built from the accepted calls alone)",
-            "All names of length <=3/4 over 22 symbols (ASCII classes plus one representative of every non-ASCII letter / numeric / space class) plus every string within edit distance 1 / prefix / extension of the three list keywords; every argument string of length <=3/4 over 12 classes with LF at every position through every string Argument impl, integer/bool/Duration values and user-defined renderers emitting every byte string of length <=3/4 over 6 bytes; every sequence of <=4/5 add_argument calls over a menu of 4 accepted and 4 rejected values: acceptance implies a legal name / no LF, rejection leaves the command == its clone, one LF per sent command, N+2 lines per list.",
+            "bounded-exhaustive enumeration of command names, argument values of every Argument kind (incl. user-defined renderers) and all sequences of <=5/6 accepted/rejected add_argument calls; differential oracle (command == command built from the accepted calls alone)",
+            "All names of length <=3/4 over 22 symbols (ASCII classes plus one representative of every non-ASCII letter / numeric / space class) plus every string within edit distance 1 / prefix / extension of the three list keywords; every argument string of length <=4/5 over 12 classes with LF at every position through every string Argument impl, integer/bool/Duration values and user-defined renderers emitting every byte string of length <=4/6 over 6 bytes; every sequence of <=5/6 add_argument calls over a menu of 4 accepted and 4 rejected values: acceptance implies a legal name / no LF, rejection leaves the command == its clone, one LF per sent command, N+2 lines per list.",
             "Trusted: the statement's alphabet (letters, digits, underscore) and the three keyword spellings; renderers only append.",
             "DESIGN.md section 4 C07"),
     "C11": ("enum", "model_checking",
             "bounded-exhaustive enumeration of filter trees (<=3 leaves, nesting <=3) x leaf kinds x value strings over a class alphabet, decoded through ports of MPD's tokenizer and filter grammar and compared with a mirror tree",
-            "Every tree shape with <=3 leaves built through new/tag/tag_exists/tag_absent/negate/!/and, every assignment of the 8 leaf kinds, and at one leaf at a time every value of length <=3/4 over 11 symbols (quotes of both kinds, backslash, parentheses, !, =, blank, non-ASCII, AND), rendered through find, count, list and count-group; every Tag variant's name against MPD's table; render-then-negate / -and / clone-then-modify histories compared with a fresh build; the argument located by the tokenizer port and parsed by the filter-grammar port must equal the mirror tree up to AND associativity with byte-identical values.",
+            "Every tree shape with <=3 leaves built through new/tag/tag_exists/tag_absent/negate/!/and, every assignment of the 8 leaf kinds, and at one leaf at a time every value of length <=4/5 over 11 symbols (quotes of both kinds, backslash, parentheses, !, =, blank, non-ASCII, AND), rendered through find, count, list and count-group; every Tag variant's name against MPD's table; render-then-negate / -and / clone-then-modify histories compared with a fresh build; the argument located by the tokenizer port and parsed by the filter-grammar port must equal the mirror tree up to AND associativity with byte-identical values.",
             "Trusted: mpdref::tokenizer and mpdref::filter as ports of MPD's two unescaping layers (self-tested on the documented examples); special filter types are outside the domain.",
             "DESIGN.md section 4 C11"),
     "C02": ("segmc", "model_checking",
@@ -103,7 +103,7 @@ CHECKS = {
             "DESIGN.md sections 3.1, 4 C08"),
     "C06": ("enum", "model_checking",
             "bounded-exhaustive enumeration of argument strings over a class alphabet, decoded by a port of MPD's tokenizer",
-            "Every argument string over 12 class representatives up to length 4 (quick) / 6 (thorough), all pairs (len<=2) and triples (len<=1), through every string Argument impl (&str, String, Cow borrowed and owned, &String, &&str), Connection::send and CommandList rendering, is rendered by the real code and read back by the reference tokenizer; the space is enumerated completely within the bound.",
+            "Every argument string over 12 class representatives up to length 5 (quick) / 7 (thorough), all pairs (len<=2/3) and triples (len<=1), through every string Argument impl (&str, String, Cow borrowed and owned, &String, &&str), Connection::send and CommandList rendering, is rendered by the real code and read back by the reference tokenizer; the space is enumerated completely within the bound.",
             "Trusted: mpdref::tokenizer as a faithful port of MPD's Tokenizer.cxx/command_process (self-tested on documented examples); the class alphabet has one representative per byte class either side distinguishes.",
             "DESIGN.md section 4 C06"),
 }
